@@ -382,10 +382,10 @@ package skiplist
 //@ nopanic
 
 //@ func (*AccessBarrier).Release @step
-//@ props C16 C04
+//@ props C16 C04 C17
 //@ mode step
 //@ ghost-pre relTok := true
-//@ requires ab != nil && ab.isab && ab.freeq != nil && bs != nil && bs.valid && bs.myins >= 1 && bs.mytok >= 1
+//@ requires ab != nil && ab.isab && ab.freeq != nil && bs != nil && bs.valid && bs.myins >= 1 && bs.mytok >= 1 && ab.mypend == 0 && !ab.mylock
 //@ atomic 1 pre[holds] bs.valid && bs.myins >= 1 && (relTok ==> bs.mytok >= 1)
 //@ atomic 1 ghost bs.ins := bs.ins - 1
 //@ atomic 1 ghost bs.myins := bs.myins - 1
@@ -397,6 +397,14 @@ package skiplist
 //@ atomic 2 ghost if ret == 1 then bs.mywin := true
 //@ atomic 2 assert[latch-once] ret == 1 ==> !old(bs.trm)
 //@ at-call (*skiplist.Skiplist).Insert bs.myterm := bs.myterm + 1
+//@ at-call (*skiplist.Skiplist).Insert ab.pend := ab.pend + 1
+//@ at-call (*skiplist.Skiplist).Insert ab.mypend := ab.mypend + 1
+//@ atomic 3 pre[pending] ab.mypend >= 1
+//@ atomic 3 ghost ab.mypend := ab.mypend - 1
+//@ atomic 3 ghost ab.pend := ab.pend - 1
+//@ atomic 3 ghost if ret then ab.mylock := true
+//@ atomic 4 pre[holder] ab.mylock
+//@ atomic 4 ghost ab.mylock := false
 //@ ensures[terminate-by-winner-only] bs.myterm - old(bs.myterm) == ite(bs.mywin && !old(bs.mywin), 1, 0)
 //@ nopanic
 
@@ -407,7 +415,7 @@ package skiplist
 //@ func (*Skiplist).Insert
 //@ trusted linearizable set abstraction of the skiplist (C13); inserts itm unless an equal item is present
 //@ requires s != nil
-//@ modifies s.set, heap(Node.$nx), heap(Node.$del), s.level, s.phys, s.n, heap($alive), heap($brk), mem(int32)
+//@ modifies s.set, heap(Node.$nx), heap(Node.$del), s.level, s.phys, s.n, heap($alive), heap($brk)
 //@ modifies heap(Stats.insertConflicts), heap(Stats.readConflicts), heap(Stats.softDeletes), heap(Stats.nodeAllocs), heap(Stats.nodeFrees), heap(Stats.usedBytes), heap(Stats.levelNodesCount)
 //@ ensures success ==> s.set == store(old(s.set), itm, true)
 //@ ensures !success ==> s.set == old(s.set)
@@ -426,14 +434,14 @@ package skiplist
 //@ requires ab != nil && ab.freeq != nil
 //@ ghost-pre dbad := false
 //@ ghost-pre dprev := ab.freeSeqno
-//@ modifies ab.freeSeqno, ab.numFreed, dprev, dbad, heap($alive), heap($brk)
+//@ modifies ab.freeSeqno, ab.numFreed, ab.freeq.set, dprev, dbad, heap($alive), heap($brk)
 //@ call (*skiplist.Skiplist).NewIterator havoc heap($alive), heap($brk)
 //@ call (*skiplist.Iterator).SeekFirst havoc none
 //@ call (*skiplist.Iterator).Valid havoc none
 //@ call (*skiplist.Iterator).Next havoc none
 //@ call (*skiplist.Iterator).GetNode havoc none
 //@ call (*skiplist.Iterator).Close havoc none
-//@ call (*skiplist.Skiplist).DeleteNode havoc none
+//@ call (*skiplist.Skiplist).DeleteNode havoc ab.freeq.set
 //@ at-call field:skiplist.AccessBarrier.callb dbad := dbad || bs.seqno != (dprev + 1) % 18446744073709551616
 //@ at-call field:skiplist.AccessBarrier.callb dprev := bs.seqno
 //@ loop 1 invariant[order] !dbad && dprev == ab.freeSeqno && ab.freeq != nil
@@ -450,3 +458,21 @@ package skiplist
 //@ atomic 3 pre[not-current] bs.valid && !bs.fl && ab.session != bs
 //@ atomic 3 assert[flushed-once] !old(bs.fl)
 //@ nopanic
+
+// ---------------------------------------------------------------------------
+// C17: liveness at quiescence as a state invariant. pend = threads between queueing a terminated session and the
+// end of their try-lock attempt. K: a cleanable queue front implies that somebody is responsible for cleaning it
+// (the try-lock is held, or a thread is about to try). At quiescence (lock free, pend == 0) K gives: nothing
+// cleanable is left, i.e. every terminated session has been destructed.
+// ---------------------------------------------------------------------------
+
+//@ ghost field AccessBarrier.pend int
+//@ ghost field AccessBarrier.mylock bool
+//@ ghost field AccessBarrier.mypend int
+//@ rely pend-mine: forall ab *AccessBarrier {ab.pend} :: ab.pend >= ab.mypend && ab.mypend >= 0
+//@ rely lock-mine: forall ab *AccessBarrier {ab.mylock} :: ab.mylock ==> ab.isDestructorRunning == 1
+//@ shared heap(AccessBarrier.pend), heap(Skiplist.set)
+//@ pure cleanable(ab *AccessBarrier) bool = exists b *BarrierSession {ab.freeq.set[b]} :: ab.freeq.set[b] && b.seqno == (ab.freeSeqno + 1) % 18446744073709551616
+//@ inv Jq-queues: forall a1, a2 *AccessBarrier {a1.freeq, a2.freeq} :: a1.isab && a2.isab && a1 != a2 ==> a1.freeq != a2.freeq
+//@ rely g-seqno: forall b *BarrierSession {b.seqno} :: old(b.valid) && old(b.fl) ==> b.seqno == old(b.seqno)
+//@ inv K-responsibility: forall ab *AccessBarrier {ab.pend} :: ab.isab ==> ab.pend >= 0 && (ab.isDestructorRunning == 0 || ab.isDestructorRunning == 1) && (cleanable(ab) ==> ab.isDestructorRunning == 1 || ab.pend > 0)
